@@ -6,6 +6,8 @@ import (
 	"os"
 	"runtime"
 	"sync"
+	"syscall"
+	"time"
 )
 
 // LastDumps keeps the last accepted snapshots (debugging aid, VERIF_DEBUG_DUMP only).
@@ -29,11 +31,22 @@ type Parked struct {
 // snapshot shows every other goroutine of the caller's bubble blocked (durably
 // or on a mutex). Such a state is stable: nothing in it can run, so nothing can
 // release a mutex or a channel. It fails after maxTries snapshots.
+// realNow is the machine's wall clock in nanoseconds, read through the system call (not through package time, which a
+// synctest bubble replaces by its virtual clock).
+func realNow() int64 {
+	var tv syscall.Timeval
+	if err := syscall.Gettimeofday(&tv); err != nil {
+		return 0
+	}
+	return tv.Sec*1e9 + tv.Usec*1e3
+}
+
 func SettleStacks() (Parked, error) {
 	bp := stackBufPool.Get().(*[]byte)
 	defer stackBufPool.Put(bp)
 	const maxTries = 20000
-	for try := 0; try < maxTries; try++ {
+	began := realNow() // (inside a bubble the time package is virtual)
+	for try := 0; try < maxTries || realNow()-began < 20e9; try++ {
 		for i := 0; i < 3+try; i++ {
 			runtime.Gosched()
 			if i > 50 {
@@ -54,8 +67,14 @@ func SettleStacks() (Parked, error) {
 		}
 		Progress()
 	}
+	// Not a verdict about the code under test: some goroutine was running or runnable in every snapshot for at least
+	// 20 s (observed once under a load average of 100: a goroutine inside a raw file-system call for that long). Like
+	// the watchdog's "no progress but goroutines are runnable", this ends the shard as inconclusive.
 	n := runtime.Stack(*bp, true)
-	return Parked{Dump: string((*bp)[:n])}, fmt.Errorf("bubble did not settle after %d snapshots (some goroutine keeps running)", maxTries)
+	fmt.Printf("VERIF-STUCK: bubble did not settle after %d snapshots and %v (some goroutine keeps running); inconclusive.\n---- stacks ----\n%s\n", maxTries, time.Duration(realNow()-began).Round(time.Second), (*bp)[:n])
+	Flush()
+	os.Exit(ExitStuck)
+	return Parked{}, nil
 }
 
 func parseSettled(dump []byte) (Parked, bool) {
